@@ -57,7 +57,7 @@ for pid in ["C%02d" % i for i in range(1, 21)]:
             "property": pid, "round": TAG, "mutant": m,
             "summary": meta.get("summary"), "breaks": meta.get("breaks"), "needs_to_manifest": meta.get("needs_to_manifest"),
             "files_touched": meta.get("files_touched"),
-            "made_against": "pinned tree 4af8f1a" if TAG == "r1" else ("/repo at 5af399e" if TAG in ("r2", "r3", "r4") else ("/repo at b966117" if TAG == "r5" else ("/repo at ffdac23" if TAG == "r6" else ("/repo at 152367a" if TAG in ("r7", "r8") else "/repo HEAD at the time")))),
+            "made_against": "pinned tree 4af8f1a" if TAG == "r1" else ("/repo at 5af399e" if TAG in ("r2", "r3", "r4") else ("/repo at b966117" if TAG == "r5" else ("/repo at ffdac23" if TAG == "r6" else ("/repo at 152367a" if TAG in ("r7", "r8", "r9") else "/repo HEAD at the time")))),
             "confirmed_by_me": {
                 "how": "tools/confirm_seeds.py in a scratch worktree: cargo test --workspace --offline with the patch (must pass), demo with the patch (must fail), demo without (must pass)",
                 "on_fixed_tree": rh if rh else ("manual run, see DESIGN.md" if MANUAL.get(sd) else None),
